@@ -246,7 +246,7 @@ theorem ahxDigits_false_even (cs : List Nat) (x : Bytes) : (ahxDigits cs false x
 theorem takeWhile_append_stop {α : Type} (p : α → Bool) (l : List α) (a : α) (r : List α)
     (hl : ∀ c ∈ l, p c = true) (ha : p a = false) : (l ++ a :: r).takeWhile p = l := by
   induction l with
-  | nil => simp [List.takeWhile, ha]
+  | nil => simp [ha]
   | cons c l ih =>
     have hc := hl c (by simp)
     simp only [List.cons_append, List.takeWhile, hc]
